@@ -446,63 +446,134 @@ func (c *Ctx) revisionChoice() {
 	fn.KeepDead = true
 	an := fn.Analyze(nil)
 	fn.KeepDead = false
-	info := fi.Pkg.TypesInfo
+	_ = fi.Pkg.TypesInfo
 	revs := fi.Decl.Type.Params.List[1].Names[0]
 	var nCreate, nUpdate int
-	for _, call := range callsIn(fi.Decl.Body, false) {
-		f := gf.StaticCallee(info, call)
-		if f == nil {
-			continue
-		}
-		st := an.StateAtExpr(call)
-		switch f.Origin() {
-		case cr.Obj:
-			nCreate++
-			// the variable holding FindEqualRevisions(revisions, candidate) is empty here
-			var eqVar *ast.Ident
-			ast.Inspect(fi.Decl.Body, func(n ast.Node) bool {
-				if as, ok := n.(*ast.AssignStmt); ok && len(as.Lhs) == 1 && len(as.Rhs) == 1 && as.End() < call.Pos() {
-					if fc, ok := as.Rhs[0].(*ast.CallExpr); ok && calleeName(info, fc) == load.K8sPkg+".FindEqualRevisions" && len(fc.Args) == 2 {
-						if fn.Term(fc.Args[0]).Key() == fn.Term(revs).Key() && fn.Term(fc.Args[1]).Key() == fn.Term(call.Args[1]).Key() {
-							eqVar, _ = as.Lhs[0].(*ast.Ident)
+	nr := c.Func(load.CtrlPkg, "newRevision")
+	nx := c.Func(load.CtrlPkg, "nextRevision")
+	ferName := load.K8sPkg + ".FindEqualRevisions"
+	revsT := fn.Term(revs)
+	one := func(d *gf.Disj) gf.State { return gf.State{D: []*gf.Disj{d}} }
+	class := func(d *gf.Disj, t *gf.Term) []*gf.Term { return append([]*gf.Term{t}, d.EqualTerms(t)...) }
+	// t is, on this path, the result of a call of one of the given functions (expanded or not)
+	resultOf := func(d *gf.Disj, t *gf.Term, fis ...*load.FuncInfo) (*ast.CallExpr, bool) {
+		for _, o := range class(d, t) {
+			if o.K == 'v' && o.Obj != nil {
+				if site, k := fn.ResultSite(o.Obj); site != nil && k == 0 {
+					for _, w := range fis {
+						if w != nil && site.Callee.Obj == w.Obj {
+							return site.Call, true
 						}
 					}
 				}
-				return true
-			})
-			if eqVar == nil {
-				c.Bad("C08.3-create-only-without-equal-revision", fi.Obj.Name()+": createControllerRevision", call.Pos(), "no FindEqualRevisions(revisions, candidate) result is consulted before creating a revision")
-			} else {
-				c.Implies(st, c.Want(fn, call.Pos(), "len($1) == 0", eqVar), "C08.3-create-only-without-equal-revision", fi.Obj.Name()+": createControllerRevision", call.Pos())
 			}
-			// the candidate carries the set's current template: it is the result of newRevision(set, nextRevision(revisions), ...)
-			src, _ := reachingDefRHS(fi, info, call.Args[1], call).(*ast.CallExpr)
-			okSrc := src != nil && calleeShort(info, src) == "newRevision"
-			c.Check(okSrc, "C08.3-candidate-from-current-template", fi.Obj.Name()+": candidate revision", call.Pos(), "the created revision is newRevision(set, nextRevision(revisions), ...)", "the created revision is not built from the set's current template")
-		case ur.Obj:
-			nUpdate++
-			want := c.Want(fn, call.Pos(), "len(k8s.FindEqualRevisions($1, $2)) > 0", revs, &ast.Ident{Name: "updateRevision"})
-			_ = want
-			// facts: an equal revision exists and the newest listed revision is not equal to it
-			target := c.resolveAlias(fi, fn, st, call.Args[0])
-			eq := assignedFromCall(fi, info, rootIdent(target))
-			okEq := eq != nil && calleeName(info, eq) == load.K8sPkg+".FindEqualRevisions"
-			c.Check(okEq, "C08.3-rollback-target-is-an-equal-revision", fi.Obj.Name()+": updateControllerRevision target", call.Pos(), "the renumbered revision is one of FindEqualRevisions(...)", "the renumbered revision is not an equal revision")
-			if okEq {
-				lenPos := c.Want(fn, call.Pos(), "len($1) > 0", rootIdent(target))
-				c.Implies(st, lenPos, "C08.3-rollback-only-with-equal-revision", fi.Obj.Name()+": updateControllerRevision", call.Pos())
-			}
-			// new number: the candidate's Revision (next revision)
-			sel, isSel := ast.Unparen(call.Args[1]).(*ast.SelectorExpr)
-			okNum := false
-			if isSel && sel.Sel.Name == "Revision" {
-				if src, _ := reachingDefRHS(fi, info, sel.X, call).(*ast.CallExpr); src != nil && calleeShort(info, src) == "newRevision" && len(src.Args) >= 2 {
-					if nx, isCall := ast.Unparen(src.Args[1]).(*ast.CallExpr); isCall && calleeShort(info, nx) == "nextRevision" {
-						okNum = fn.Term(nx.Args[0]).Key() == fn.Term(revs).Key()
+			if o.K == 'k' && o.Fn != nil {
+				for _, w := range fis {
+					if w != nil && o.Fn.Origin() == w.Obj {
+						return nil, true
 					}
 				}
 			}
-			c.Check(okNum, "C08.3-rollback-renumbers-above-all", fi.Obj.Name()+": updateControllerRevision number", call.Pos(), "the equal revision gets nextRevision(revisions): above all others", "the rolled-back revision is not renumbered above all listed revisions")
+		}
+		return nil, false
+	}
+	// the candidate: built by newRevision from the set with the number nextRevision(revisions)
+	isCandidate := func(d *gf.Disj, t *gf.Term) bool {
+		call, ok := resultOf(d, t, nr)
+		if !ok {
+			// not expanded: the variable was assigned the call's first result
+			return false
+		}
+		if call == nil {
+			return true
+		}
+		return true
+	}
+	// every call of newRevision in the choice numbers the candidate nextRevision(revisions)
+	if nr != nil && nx != nil {
+		for _, bd := range fn.Bodies() {
+			for _, call := range callsIn(bd, false) {
+				if f := gf.StaticCallee(fn.Info, call); f == nil || f.Origin() != nr.Obj || len(call.Args) < 2 {
+					continue
+				}
+				for _, st := range an.StatesAtExpr(call) {
+					if !st.Reachable() {
+						continue
+					}
+					want := gf.FEq(fn.Term(call.Args[1]), gf.CallT(nx.Obj.FullName(), types.Typ[types.Int64], revsT))
+					c.Implies(st, want, "C08.3-candidate-numbered-above-all", fi.Obj.Name()+": newRevision number", call.Pos())
+				}
+			}
+		}
+	}
+	for _, bd := range fn.Bodies() {
+		for _, call := range callsIn(bd, false) {
+			f := gf.StaticCallee(fn.Info, call)
+			if f == nil || (f.Origin() != cr.Obj && f.Origin() != ur.Obj) {
+				continue
+			}
+			for _, st := range an.StatesAtExpr(call) {
+				if !st.Reachable() {
+					continue
+				}
+				switch f.Origin() {
+				case cr.Obj:
+					nCreate++
+					name := fi.Obj.Name() + ": createControllerRevision"
+					if len(call.Args) < 2 {
+						c.Unk("C08.3-create-only-without-equal-revision", name, call.Pos(), "the create helper has no candidate argument")
+						continue
+					}
+					cand := fn.Term(call.Args[1])
+					// no listed revision is equal to the candidate
+					none := gf.FEq(gf.LenOf(gf.CallT(ferName, revsT.Typ, revsT, cand)), gf.ConstInt(0))
+					c.Implies(st, none, "C08.3-create-only-without-equal-revision", name, call.Pos())
+					okSrc := true
+					for _, d := range st.D {
+						if !isCandidate(d, cand) {
+							okSrc = false
+						}
+					}
+					c.Check(okSrc, "C08.3-candidate-from-current-template", fi.Obj.Name()+": candidate revision", call.Pos(), "the created revision is the one newRevision built from the set", "the created revision is not built from the set's current template")
+				case ur.Obj:
+					nUpdate++
+					name := fi.Obj.Name() + ": updateControllerRevision"
+					if len(call.Args) < 2 {
+						c.Unk("C08.3-rollback-target-is-an-equal-revision", name, call.Pos(), "the renumber helper has no target/number arguments")
+						continue
+					}
+					tt := fn.Term(call.Args[0])
+					okEq, okNum := true, true
+					for _, d := range st.D {
+						// the target is a cell of FindEqualRevisions(revisions, candidate)
+						var candT *gf.Term
+						for _, cell := range class(d, tt) {
+							if cell.K != 'i' || len(cell.A) != 2 {
+								continue
+							}
+							for _, o := range class(d, cell.A[0]) {
+								if o.K == 'k' && o.S == ferName && len(o.A) == 2 {
+									if g, _ := one(d).Implies(gf.FEq(o.A[0], revsT)); g && isCandidate(d, o.A[1]) {
+										candT = o.A[1]
+									}
+								}
+							}
+						}
+						if candT == nil {
+							okEq = false
+							continue
+						}
+						// renumbered with the candidate's number
+						if g, _ := one(d).Implies(gf.FEq(fn.Term(call.Args[1]), gf.Field(candT, "Revision", types.Typ[types.Int64]))); !g {
+							okNum = false
+						}
+					}
+					c.Check(okEq, "C08.3-rollback-target-is-an-equal-revision", name+" target", call.Pos(), "the renumbered revision is one of FindEqualRevisions(revisions, candidate)", "the renumbered revision is not an equal revision of the candidate")
+					if okEq {
+						c.Check(okNum, "C08.3-rollback-renumbers-above-all", name+" number", call.Pos(), "the equal revision gets the candidate's number, nextRevision(revisions): above all others", "the rolled-back revision is not renumbered with the candidate's number")
+					}
+				}
+			}
 		}
 	}
 	c.Floor("C08.3-create-sites", nCreate, 1)
@@ -647,42 +718,45 @@ func (c *Ctx) updateRevisionSources(fi *load.FuncInfo, fn *gf.Fn, an *gf.Analysi
 		return
 	}
 	upd := info.ObjectOf(final.Results[1].(*ast.Ident))
+	st := an.StateBefore(final)
+	newest := c.WantTerm(fn, final.Pos(), "$1[len($1)-1]", revs)
 	n := 0
-	ast.Inspect(fi.Decl.Body, func(x ast.Node) bool {
-		as, ok := x.(*ast.AssignStmt)
-		if !ok {
-			return true
-		}
-		for i, l := range as.Lhs {
-			id, ok := l.(*ast.Ident)
-			if !ok || info.ObjectOf(id) != upd {
-				continue
-			}
-			n++
-			var rhs ast.Expr
-			if len(as.Rhs) == len(as.Lhs) {
-				rhs = as.Rhs[i]
-			} else if len(as.Rhs) == 1 {
-				rhs = as.Rhs[0]
-			}
-			name := fmt.Sprintf("%s: %s = %s", fi.Obj.Name(), upd.Name(), clip(types.ExprString(rhs), 60))
-			if call, ok := ast.Unparen(rhs).(*ast.CallExpr); ok {
-				f := gf.StaticCallee(info, call)
-				if f != nil && (f.Origin() == cr.Obj || f.Origin() == ur.Obj || calleeShort(info, call) == "newRevision") && i == 0 {
-					c.OK("C08.3-update-revision-source", name, as.Pos(), "candidate, or the result of the create / renumber helper")
-					continue
+	kinds := map[string]int{}
+	for _, d := range st.D {
+		n++
+		one := gf.State{D: []*gf.Disj{d}}
+		kind := ""
+		for _, o := range append([]*gf.Term{gf.Var(upd)}, d.EqualTerms(gf.Var(upd))...) {
+			if o.K == 'v' && o.Obj != nil {
+				if site, k := fn.ResultSite(o.Obj); site != nil && k == 0 {
+					if site.Callee.Obj == cr.Obj {
+						kind = "created"
+					} else if site.Callee.Obj == ur.Obj {
+						kind = "renumbered"
+					}
 				}
 			}
-			// otherwise: the newest listed revision
-			newest := c.WantTerm(fn, as.Pos(), "$1[len($1)-1]", revs)
-			good := false
-			if newest != nil {
-				good, _ = an.StateAfter(as).Implies(gf.FEq(gf.Var(upd), newest))
+			if o.K == 'k' && o.Fn != nil {
+				if o.Fn.Origin() == cr.Obj {
+					kind = "created"
+				} else if o.Fn.Origin() == ur.Obj {
+					kind = "renumbered"
+				}
 			}
-			c.Check(good, "C08.3-update-revision-source", name, as.Pos(), "the newest listed revision (revisions[len(revisions)-1])",
-				"the update revision is set to a listed revision that is not proven to be the newest one, without renumbering it: the update revision can end up below the newest revision")
 		}
-		return true
-	})
-	c.Floor("C08.3-update-revision-assignments-in-choice", n, 4)
+		if kind == "" && newest != nil {
+			if g, _ := one.Implies(gf.FEq(gf.Var(upd), newest)); g {
+				kind = "newest"
+			}
+		}
+		if kind == "" {
+			c.Bad("C08.3-update-revision-source", fmt.Sprintf("%s: %s at the final return, path %d", fi.Obj.Name(), upd.Name(), n), final.Pos(),
+				"the update revision returned on this path is neither the result of the create / renumber helper nor the newest listed revision (revisions[len(revisions)-1]): it can end up below the newest revision; facts: "+clip(d.String(), 500))
+		}
+		kinds[kind]++
+	}
+	for _, k := range []string{"created", "renumbered", "newest"} {
+		c.Check(kinds[k] > 0, "C08.3-update-revision-source", fi.Obj.Name()+": a path returns the "+k+" revision", final.Pos(), fmt.Sprintf("%d path states", kinds[k]), "no path returns the "+k+" revision: the three-way choice is gone")
+	}
+	c.Floor("C08.3-update-revision-paths-at-final-return", n, 3)
 }
